@@ -151,8 +151,10 @@ def check_session(script):
 def run_suite(rng, n):
     """n random sessions -> (mismatches, stats, distinct)"""
     mism = []; stats = collections.Counter(); distinct = set()
-    for i in range(n):
-        sc = gen_session(rng)
+    import random as _random
+    fixed = [gen_session(_random.Random(977 + j)) for j in range(16)]      # the same 16 scripts in every run and tier
+    for i in range(n + len(fixed)):
+        sc = fixed[i] if i < len(fixed) else gen_session(rng)
         try:
             r, st = run_session(sc, ctx=200 + i)
         except Exception as ex:
